@@ -3,12 +3,13 @@ import Driver.WW
 import Driver.Sim
 import Driver.Helpers
 import Driver.MP
+import Driver.Graph
 open Lean
 
 namespace Driver
 
 def allHandlers : List (String × Handler) :=
-  Driver.WW.handlers ++ Driver.Sim.handlers ++ Driver.Helpers.handlers ++ Driver.MP.handlers
+  Driver.WW.handlers ++ Driver.Sim.handlers ++ Driver.Helpers.handlers ++ Driver.MP.handlers ++ Driver.Graph.handlers
 
 def dispatch (line : String) : String :=
   match Json.parse line with
